@@ -146,6 +146,7 @@ class SymCat(object):
 
 class SymStr(object):
     pytype = 'str'
+    chars = None
 
     def __repr__(self):
         return '<a str>'
@@ -448,17 +449,8 @@ class CodecInterp(Interp):
             return Native('bytes.%s' % attr, lambda it, a, k, _m=getattr(v, attr): _m(*a, **k), False)
         return Interp.getattr(self, v, attr, node)
 
-    def e_Subscript(self, e, f):
-        base = self.eval(e.value, f)
-        if isinstance(base, dict) and not isinstance(e.slice, ast.Slice):
-            k = self.concretise(self.eval(e.slice, f))
-            if isinstance(k, (int, bytes, str)):
-                if k not in base:
-                    raise InterpRaise('KeyError', repr(k), e)
-                return base[k]
-        if isinstance(base, SymInt):
-            raise Uninterpretable('subscript of a symbolic integer')
-        return Interp.e_Subscript(self, e, f)
+    def index_value(self, i):
+        return self.concretise(i)
 
     # ---- natives -----------------------------------------------------------------------------------------------------
     def call_native(self, fn, args, kwargs):
@@ -527,6 +519,11 @@ class CodecInterp(Interp):
             return self.concretise(v.length) if isinstance(v.length, SymInt) else v.length
         if isinstance(v, SymRead):
             return v.size
+        if isinstance(v, SymStr):
+            # the number of characters: a quantity of its own, not the length of the encoded payload
+            if v.chars is None:
+                v.chars = SymInt('chars', 0, BIG)
+            return v.chars
         if isinstance(v, bytes):
             return len(v)
         return Interp.nat_len(self, args, kwargs)
@@ -594,6 +591,8 @@ class CodecInterp(Interp):
             return None
         if name == '_unpack' and self.depth['unpack'] >= 1:
             self.reads.append(('nested',))
+            if getattr(self, 'nested_script', None):
+                return self.nested_script.pop(0)
             return SymAny('nested value %d' % len(self.reads))
         if name == '_unpack':
             self.depth['unpack'] += 1
@@ -627,9 +626,11 @@ class CodecInterp(Interp):
                 self.reads.append(('first', 1))
                 return first
             if isinstance(n, int):
+                if short and n == 0:
+                    short = False          # a read of nothing cannot come back short
                 if short:
                     self.reads.append(('short', i))
-                    return SymRead(i, max(n - 1, 0)) if n > 0 else SymRead(i, 0)
+                    return SymRead(i, n - 1)
                 self.reads.append(('header', i, n))
                 return SymRead(i, n)
             if is_sym(n):
@@ -674,6 +675,32 @@ def explore(it, run, limit=512):
 KINDS = ['nil', 'true', 'false', 'int', 'float', 'str', 'bytes', 'list', 'tuple', 'dict', 'ext', 'unsupported']
 
 
+def ext_type_range(it):
+    """The ext types Ext.__init__ accepts: the constructor is interpreted on a symbolic type."""
+    cached = getattr(it, '_ext_range', None)
+    if cached:
+        return cached
+    ext = ClassRef(it.facts.classes['Ext'])
+    saved = (list(it.decisions), list(it.prefix), dict(it.cons), list(it.written), list(it.reads), list(it.repeat), list(it.effects),
+             list(it.objs))
+
+    def run():
+        it.call(ext, [SymInt('t'), b'x'], {})
+    ok = []
+    try:
+        for decisions, result, exc, snap in explore(it, run):
+            if exc is None:
+                c = snap['cons'].get('t')
+                if c:
+                    ok.append((c[0], c[1]))
+    finally:
+        it.decisions, it.prefix, it.cons, it.written, it.reads, it.repeat, it.effects, it.objs = saved
+    if len(ok) != 1 or ok[0][0] <= -BIG or ok[0][1] >= BIG:
+        raise AnalysisError('Ext.__init__ does not accept one bounded range of types: %s' % (ok,))
+    it._ext_range = ok[0]
+    return ok[0]
+
+
 def make_value(it, kind):
     """-> (abstract value, the controlling symbolic quantity or None)"""
     if kind == 'nil':
@@ -703,7 +730,8 @@ def make_value(it, kind):
         if ext is None:
             raise AnalysisError('umsgpack.Ext vanished')
         n = SymInt('L', 0, BIG)
-        t = SymInt('t', 0, 127)
+        lo, hi = ext_type_range(it)
+        t = SymInt('t', lo, hi)
         return Obj(ext, {'type': t, 'data': SymPayload('the ext data', n)}, 'an Ext'), n
     if kind == 'unsupported':
         return Obj(it.facts.classes.get('Ext') and next(c for c in it.facts.classes.values() if c.name != 'Ext'), {}, 'an object'), None
@@ -779,3 +807,21 @@ def reader_table(repo, compat, short=False):
         else:
             table[b] = rows
     return table
+
+
+def map_with_key(repo, key):
+    """unpack of a one-entry fixmap (0x81) whose nested unpack calls return `key` and then 'v' -> (result, exception)"""
+    it = repo.memo('codec-interp', lambda: CodecInterp(repo))
+    it.env['compatibility'] = False
+    it.short_at = None
+    unpack = it.env.get('unpack')
+    it.reset_path([])
+    it.nested_script = [key, 'v']
+    try:
+        return it.call(unpack, [it.reader_fp(b'\x81')], {}), None
+    except InterpRaise as e:
+        return None, e
+    except Uninterpretable as e:
+        raise AnalysisError('unpack of a map with a list key is outside the interpretable subset: %s' % e)
+    finally:
+        it.nested_script = None
